@@ -18,6 +18,8 @@ pub fn sigma_full() -> Vec<&'static str> {
     let mut v = vec![
         // text / misc
         "x", " ", "\n", "\0", "<!--c-->", "<!DOCTYPE html>", "\t", "\x0C", "\r", "\u{a0}", "\x0B", "\u{3000}",
+        // a CARRIAGE RETURN character token (a literal CR never reaches the tree builder: only a character reference does)
+        "&#13;",
         // one character token with several whitespace / non-whitespace runs (split repeatedly by the builder)
         "y z", " y z ",
         // structure
@@ -399,10 +401,10 @@ pub fn fragment_contexts() -> Vec<Frag> {
 pub fn themed() -> Vec<(&'static str, Vec<&'static str>)> {
     vec![
         ("formatting", vec!["<a>", "<b>", "<i>", "<nobr>", "<p>", "<div>", "</a>", "</b>", "</i>", "</p>", "</div>", "x", "<table>", "<td>", "<button>", "<span>"]),
-        ("tables", vec!["<table>", "<tbody>", "<tr>", "<td>", "<caption>", "<colgroup>", "<col>", "</table>", "</tr>", "</td>", "x", " ", "<b>", "<input type=hidden>", "<form>", "<template>", "<!--c-->", "<select>"]),
+        ("tables", vec!["<table>", "<tbody>", "<tr>", "<td>", "<caption>", "<colgroup>", "<col>", "</table>", "</tr>", "</td>", "x", " ", "<b>", "<input type=hidden>", "<form>", "<template>", "<!--c-->", "<select>", "&#13;"]),
         ("templates", vec!["<template>", "</template>", "<tr>", "<td>", "<col>", "<div>", "x", "<table>", "</table>", "<frameset>", "<body>", "<head>", "</body>", "</html>"]),
         ("foreign", vec!["<svg>", "<math>", "<foreignObject>", "<desc>", "<mi>", "<annotation-xml encoding=text/html>", "<annotation-xml>", "<p>", "<b>", "</p>", "</svg>", "</math>", "x", "\0", "<table>", "<font color=r>", "<mglyph>", "<![CDATA[x]]>", "</x>", "<svg/>", "</foreignObject>", "</mi>", "<x>"]),
-        ("skeleton", vec!["<html>", "<head>", "<body>", "</head>", "</body>", "</html>", "<frameset>", "</frameset>", "<frame>", "<noframes>", "</noframes>", "x", " ", "<!--c-->", "<!DOCTYPE html>", "<title>", "<meta>", "<template>", "<br>", "<input type=hidden>", "<p>"]),
+        ("skeleton", vec!["<html>", "<head>", "<body>", "</head>", "</body>", "</html>", "<frameset>", "</frameset>", "<frame>", "<noframes>", "</noframes>", "x", " ", "<!--c-->", "<!DOCTYPE html>", "<title>", "<meta>", "<template>", "<br>", "<input type=hidden>", "<p>", "&#13;"]),
         ("lists", vec!["<ul>", "<li>", "<dd>", "<dt>", "</li>", "</ul>", "</dd>", "</dt>", "<ol>", "</ol>", "<p>", "<div>", "<address>", "<button>", "</p>", "x", "<h1>", "<h2>", "</h1>", "<option>", "<ruby>", "<rt>", "<rtc>", "<rb>"]),
         ("forms", vec!["<form>", "</form>", "<div>", "</div>", "<input>", "<button>", "<template>", "</template>", "<table>", "<tr>", "x", "<fieldset>", "<textarea>", "</textarea>"]),
         ("pre-lf", vec!["<pre>", "<listing>", "<textarea>", "\n", "x", "</>", "</pre>", "</textarea>", "<!--c-->", "\r\n", "<b>", "\0"]),
@@ -500,6 +502,12 @@ pub fn jobs(tier: Tier, full: bool) -> Vec<Job> {
         }
         let mut ws = mode_witnesses();
         ws.push(vec![]);
+        // an active formatting entry that is no longer on the stack: the next token that reconstructs the
+        // active formatting elements re-creates it, every other token must not
+        ws.push(vec!["<p>", "<b>", "</p>"]);
+        ws.push(vec!["<p>", "<b>", "</p>", "<svg>"]);
+        ws.push(vec!["<p>", "<b>", "</p>", "<table>"]);
+        ws.push(vec!["<div>", "<a>", "<i>", "</div>", "<select>"]);
         for w in ws {
             if !full && w.iter().any(|l| is_c02_excluded(l)) {
                 continue;
@@ -507,6 +515,7 @@ pub fn jobs(tier: Tier, full: bool) -> Vec<Job> {
             v.push(Job { name: format!("J5/{}", w.concat()), cfg: TreeCfg::default(), prefix: w, sigma: sig5.clone(), depth: 2 });
         }
         v.push(Job { name: "J5n/".into(), cfg: TreeCfg { scripting: false, ..Default::default() }, prefix: vec![], sigma: sig5.clone(), depth: 2 });
+        v.push(Job { name: "J5n/<p><b></p>".into(), cfg: TreeCfg { scripting: false, ..Default::default() }, prefix: vec!["<p>", "<b>", "</p>"], sigma: sig5.clone(), depth: 2 });
     }
     // J6: deep prepared structures (non-initial states that a depth-bounded search from the start
     // cannot reach): long formatting chains, outer/inner adoption-agency loop limits, Noah's ark
